@@ -44,9 +44,9 @@ class Runtime:
         self.log.append(rec)
         return idx, rec
 
-    def _maybe_fail(self, path, idx):
+    def _maybe_fail(self, path, idx, args=()):
         nd = self.nodes[path]
-        if idx in nd["fail_at"]:
+        if idx in nd["fail_at"] or any(IR.canon(v) in nd["fail_args"] for _, v in args):
             exc = Boom(f"boom at {path}#{idx}")
             self.raised.append((path, idx, exc))
             raise exc
@@ -67,32 +67,37 @@ class Runtime:
 
     def call(self, path, args):
         idx, _ = self._enter(path, args)
-        self._maybe_fail(path, idx)
+        self._maybe_fail(path, idx, args)
         self.ends.append(path)
         return self._result(self.nodes[path], args)
 
     async def acall(self, path, args):
         idx, _ = self._enter(path, args)
         if self.controller is not None:
-            await self.controller.park(path, idx)
+            await self.controller.park(path, idx, args)
         else:
             await asyncio.sleep(0)
-        self._maybe_fail(path, idx)
+        self._maybe_fail(path, idx, args)
         self.ends.append(path)
         return self._result(self.nodes[path], args)
 
     def gate(self, path, args):
         idx, rec = self._enter(path, args)
-        self._maybe_fail(path, idx)
+        self._maybe_fail(path, idx, args)
         nd = self.nodes[path]
         raw = nd["script"][min(idx, len(nd["script"])) - 1]
+        vals = {IR.canon(v) for _, v in args}
+        for val, r2 in nd["dec_args"]:
+            if val in vals:
+                raw = r2
+                break
         self.ends.append(path)
         rec["dec"] = effective_decision(nd, raw)
         return decode_decision(nd, raw)
 
     def handler(self, path, args):
         idx, _ = self._enter(path, args)
-        self._maybe_fail(path, idx)
+        self._maybe_fail(path, idx, args)
         nd = self.nodes[path]
         self.ends.append(path)
         if idx in nd["pause_at"]:
@@ -242,7 +247,9 @@ def _complete(rt, p, prefix):
 # ---------------------------------------------------------------------------
 
 def provided_dict(job):
-    return {k: v for k, v in job["provided"]}
+    """Provided values; a value whose text is registered in job['lists'] is passed as a real list."""
+    lists = {t: items for t, items in job.get("lists", [])}
+    return {k: (list(lists[v]) if v in lists else v) for k, v in job["provided"]}
 
 
 def run_job(job, *, runner=None, event_processors=None, max_concurrency=None, cache=None, on_missing=None,
